@@ -184,6 +184,10 @@ def run_case(case):
         except interp.IllFormed as e:
             out["violations"].append({"kind": "result_tree_illformed", "detail": f"{model.show(prog)} -> {short(rel2)}: {e}"})
             return out
+        except (ArithmeticError, TypeError, KeyError) as e:
+            # the two operations in sequence evaluate fine (the model did), the returned tree does not
+            out["violations"].append({"kind": "result_tree_evaluation_raises", "detail": f"{model.show(prog)} -> {short(rel2)}: {exc_str(e)}"})
+            return out
         c["pairs_compared"] = 1
         got_named = interp.named(got)
         if {t.qualified_name for t in gcols} != set(want.cols):
